@@ -340,4 +340,16 @@ def r19_5(ctx: Ctx) -> RuleResult:
     return rr
 
 
-RULES = [r19_1, r19_2, r19_3, r19_4, r19_5]
+def r19_6(ctx: Ctx) -> RuleResult:
+    """A projection is rebuilt from the `parts` of the selected matches: an int part becomes an array slot, a str part
+    an object member.  So the parts a selector produces must be typed by what was selected (= R20.1)."""
+    from .c20 import r20_1
+
+    rr = r20_1(ctx)
+    rr.rule = "R19.6"
+    for f in rr.findings:
+        f.rule = "R19.6"
+    return rr
+
+
+RULES = [r19_1, r19_2, r19_3, r19_4, r19_5, r19_6]
